@@ -16,6 +16,8 @@ AttrClasses(k, tid) ==
           THEN { T(tt, tid, "tv", 14, v, << >>) : v \in kl }
                \cup { T(tt, tid, "tv", at, 128, << >>) : at \in {0, 1, 13, 15, 142, 270, 1038, 16398, 32766, 32767} \cup { 14 + 128 * j : j \in {1, 2, 3, 100, 255} } }
                \cup { T(tt, tid, "tlv", 14, 0, v) : v \in { << 0, 128 >>, << 128 >>, << 1, 0 >>, << 0, 0, 0, 128 >> } }
+               \* TLV values whose LENGTH is a key size (the length half-word must not be taken for the value)
+               \cup { T(tt, tid, "tlv", 14, 0, D(n, 14)) : n \in {16, 24, 32, 128, 192, 256} }
           ELSE {})
 
 IdVector(k, tid) ==
